@@ -60,7 +60,7 @@ def expected_values(op, fn, a, b, A, B, arg):
             for p in range(npg):
                 out[e, p] = v[e, p] if len(ld) == 2 else v[e] if len(ld) == 1 else v
         return out
-    ne, npg = lead_of(a, b) if op in ("ew", "matmul", "dot", "ddot") else a["shape"][:2]
+    ne, npg = lead_of(a, b) if op in ("ew", "matmul", "dot", "ddot", "tensorprod") else a["shape"][:2]
     rows = []
     for e in range(ne):
         row = []
@@ -73,6 +73,18 @@ def expected_values(op, fn, a, b, A, B, arg):
                 r = np.tensordot(x, y, axes=1)
             elif op == "ddot":
                 r = np.tensordot(x, y, axes=2)
+            elif op == "tensorprod":
+                if np.ndim(x) == 1:
+                    r = np.outer(x, y)
+                elif not arg:
+                    r = np.einsum("ij,kl->ijkl", x, y)
+                else:  # 1/2 (A_ik B_jl + A_il B_jk), written out index by index
+                    r = np.zeros((x.shape[0], y.shape[0], x.shape[1], y.shape[1]))
+                    for i_ in range(x.shape[0]):
+                        for j_ in range(y.shape[0]):
+                            for k_ in range(x.shape[1]):
+                                for l_ in range(y.shape[1]):
+                                    r[i_, j_, k_, l_] = 0.5 * (x[i_, k_] * y[j_, l_] + x[i_, l_] * y[j_, k_])
             elif op == "matmul":
                 r = np.matmul(x, y) if (np.ndim(x) <= 2 and np.ndim(y) <= 2) else np.tensordot(x, y, axes=1)
             elif op == "T":
@@ -99,7 +111,7 @@ def run_case(cs, seed):
     op, a, b, arg, res = cs["op"], cs["a"], cs["b"], cs["arg"], cs["res"]
     rng = np.random.default_rng(seed)
     A_fe, A = mk(a, rng)
-    B_fe, B = mk(b, rng) if op in ("ew", "matmul", "dot", "ddot", "broadcast") else (None, None)
+    B_fe, B = mk(b, rng) if op in ("ew", "matmul", "dot", "ddot", "broadcast", "tensorprod") else (None, None)
     variants = EW_OPS if op == "ew" else REDUCERS if op == "reduce" else [(op, None)]
     for vname, fn in variants:
         got, exc = None, None
@@ -122,6 +134,10 @@ def run_case(cs, seed):
                     got = A_fe.dot(B_fe)
                 elif op == "ddot":
                     got = A_fe.ddot(B_fe)
+                elif op == "tensorprod":
+                    from EasyFEA.FEM._linalg import TensorProd
+
+                    got = TensorProd(A_fe, B_fe, symmetric=bool(arg))
                 elif op == "T":
                     got = A_fe.T
                 elif op == "reduce":
@@ -138,7 +154,7 @@ def run_case(cs, seed):
                     got = FeArray.broadcast(B_fe, a["shape"][0], a["shape"][1], arg)
         except Exception as ex:  # noqa: BLE001
             exc = ex
-        desc = f"{vname}({'fe' if a['fe'] else 'plain'}{a['shape']}, {'fe' if b['fe'] else 'plain'}{b['shape']}" + (f", arg={arg})" if op in ("reduce", "broadcast") else ")")
+        desc = f"{vname}({'fe' if a['fe'] else 'plain'}{a['shape']}, {'fe' if b['fe'] else 'plain'}{b['shape']}" + (f", arg={arg})" if op in ("reduce", "broadcast", "tensorprod") else ")")
         akey = f"{'fe' if a['fe'] else 'pl'}r{len(a['shape']) - (2 if a['fe'] else 0)}"
         bkey = f"{'fe' if b['fe'] else 'pl'}r{len(b['shape']) - (2 if b['fe'] else 0)}"
         key = f"{op}/{akey}/{bkey}"
